@@ -110,10 +110,13 @@ func PatchesFromDocument(doc string) ([]Patch, error) {
 			return nil, err
 		}
 
-		if entries, ok := parsed[key].([]interface{}); ok && len(entries) == 0 &&
-			(key == document.PublicKeyProperty || key == document.ServiceProperty || key == document.AlsoKnownAs) {
-			// an empty set of keys, services or URIs needs no patch (and an 'add' patch without entries is not valid)
-			continue
+		if key == document.PublicKeyProperty || key == document.ServiceProperty || key == document.AlsoKnownAs {
+			// an empty set of keys, services or URIs needs no patch (and an 'add' patch without entries is not valid);
+			// the set is just as empty when the member is null - which is what the document composer leaves behind
+			// when the last key or service has been removed, and what a resolved document then shows
+			if entries, ok := parsed[key].([]interface{}); parsed[key] == nil || (ok && len(entries) == 0) {
+				continue
+			}
 		}
 
 		var docPatch Patch
